@@ -139,14 +139,14 @@ func (l *lexer) acceptAhead(length int) {
 // skip consumes the next rune and then discards it.
 func (l *lexer) skip() rune {
 	r := l.next()
-	l.s = l.s[:len(l.s)-1]
+	l.s = l.s[:len(l.s)-l.width]
 	return r
 }
 
 // skipRun consumes a run of runes from the skipList and discards them.
 func (l *lexer) skipRun(skipList string) {
 	for strings.ContainsRune(skipList, l.next()) {
-		l.s = l.s[:len(l.s)-1]
+		l.s = l.s[:len(l.s)-l.width]
 	}
 	l.backup()
 }
@@ -154,7 +154,7 @@ func (l *lexer) skipRun(skipList string) {
 // skipUntil consumes and discards runes until it finds a rune in the stopList.
 func (l *lexer) skipUntil(stopList string) {
 	for r := l.next(); !strings.ContainsRune(stopList, r) && r != scanner.EOF; r = l.next() {
-		l.s = l.s[:len(l.s)-1]
+		l.s = l.s[:len(l.s)-l.width]
 	}
 	l.backup()
 }
